@@ -162,8 +162,9 @@ func (rr *DefaultRelationsResolver) NewAutoMutation() (*Mutation, S) {
 	m := t.Machine
 	var toAdd S
 
-	// check all Auto states
-	for s := range m.schema {
+	// check all Auto states, in the order of the state names (the order of the
+	// called states is observable, map iteration order must not decide it)
+	for _, s := range m.stateNames {
 		if !m.schema[s].Auto {
 			continue
 		}
